@@ -49,7 +49,7 @@ def describe(run, l, clause, S):
     rule = rule_of(ev, S)
     if ev.get("e") in ("Reparse", "FixEnd", "Norm", "Parse"):
         rule = ""
-    if ev.get("e") in ("RunCrash", "FixAbort", "CheckAbort"):
+    if ev.get("e") in ("RunCrash", "FixAbort", "CheckAbort", "RunHang"):
         # attribute the abort of the run to the rule whose analyze/fix raised
         for prev in reversed(run["ev"][: max(0, l - 1)]):
             if prev.get("e") == "Crash":
